@@ -1,19 +1,64 @@
-import XModel.RefsTable
+import XModel.RefsLift
 import XModel.ManagerC11
 import XModel.PickleHeap
 /-!
 # C12 — a pickled manager restores to an independent, behaviourally identical copy
 The pickle protocol is the model: reduce every node to (class, constructor arguments), rebuild by
-calling the class.  Tie A checks `Generated.tbl.ValidReduce` on every run.
+calling the class.  Tie A checks `Generated.tbl.ValidReduce` on every run; `ValidReduce` is closed over
+the class universe `RefsTable.classSlots` (every expression class) and `RefsTable.refClasses` (`Ref`,
+`ObjectAttrRef`): each must have a row saying own class / constructor arguments in order / rebuilds equal.
 -/
 namespace Properties.C12
 open RefsTable
 
-/-- reduce / rebuild is the identity on every object graph whose classes reduce to their own
-    constructor's arguments in constructor order -/
-theorem C12_reduce_rebuild (rows : List ReduceRow) (sn : String → List String) (n : DNode)
+/-- THE BRIDGE from the per-run obligation to the trees: a table with `ValidReduce = true` has a valid
+    reduce row for every class of the universe, hence every tree of the universe in constructor shape —
+    `InUniverseCtor n`, a decidable property of the tree alone: each node's class is in `classSlots` and
+    its children are the constructor's operands, one per slot of `ctorSlots`, in order — is `picklable`.
+    (Before, `ValidReduce` was "the listed rows are all true and there is one".) -/
+theorem C12_reduce_covers_universe (f : Full) (h : f.ValidReduce = true) :
+    (∀ cls, knownClass cls = true → reduceOk f.reduce cls = true) ∧
+    (∀ n : DNode, InUniverseCtor n = true → picklable f.reduce ctorSlots n = true) :=
+  ⟨reduceOk_of_known f h, picklable_of_valid f h⟩
+
+/-- for a valid table, reduce / rebuild is the identity on every tree of the universe (EXPRESSION NODES
+    only: nothing here is about the manager, its task table or its containers).  Hypotheses: `ValidReduce`
+    — the per-run obligation, needed (second example below: D18); `InUniverseCtor n` — the tree is made of
+    the library's classes, children in constructor order.  In this model `CallRef`'s `args` / `kwargs`
+    tuples and `BuiltinRef`'s `params` tuple are ONE operand each (`ctorSlots "CallRef" =
+    ["func", "arg", "kwarg"]`), as they are one constructor argument each. -/
+theorem C12_reduce_rebuild (f : Full) (hv : f.ValidReduce = true) (n : DNode) (hu : InUniverseCtor n = true) :
+    unpickleN ctorSlots (pickleN f.reduce n) = n :=
+  unpickle_pickle_universe f hv n hu
+
+/-- the same for arbitrary rows and slot names, with the hypothesis on rows AND tree together
+    (`picklable`); the statement above is this one composed with `C12_reduce_covers_universe` -/
+theorem C12_reduce_rebuild_rows (rows : List ReduceRow) (sn : String → List String) (n : DNode)
     (h : picklable rows sn n = true) : unpickleN sn (pickleN rows n) = n :=
   unpickle_pickle rows sn n h
+
+/-- non-vacuity of the universe statement: `RefsLift.sample` passes `ValidReduce`;
+    `f(a[b], -c) + 1` in constructor shape round-trips -/
+def ctorNode : DNode :=
+  .node "AddExpr"
+    [("lhs", .node "CallRef" [("func", .ref 6), ("arg", .node "ItemRef" [("owner", .ref 1), ("key", .ref 2)]),
+                              ("kwarg", .node "NegExpr" [("arg", .ref 3)])]),
+     ("rhs", .node "LiteralExpr" [])]
+example : InUniverseCtor ctorNode = true := by decide
+example : unpickleN ctorSlots (pickleN RefsLift.sample.reduce ctorNode) = ctorNode :=
+  C12_reduce_rebuild RefsLift.sample RefsLift.sample_valid_reduce ctorNode (by decide)
+/-- a tree in constructor shape is a tree of the universe in C05's sense -/
+example : InUniverse ctorNode = true := inUniverse_of_ctor ctorNode (by decide)
+/-- the strengthened test rejects the degenerate tables: one row; everything but `ItemRef`; the row of
+    `BuiltinRef` as the pinned tree produced it (D18) -/
+example : ({ RefsLift.sample with reduce := [⟨"AddExpr", true, true, true⟩] } : Full).ValidReduce = false := by decide
+example : ({ RefsLift.sample with reduce := RefsLift.sample.reduce.filter (fun r => r.cls != "ItemRef") } : Full).ValidReduce
+    = false := by decide
+example : ({ RefsLift.sample with reduce := (RefsLift.sample.reduce.map
+    (fun r => if r.cls = "BuiltinRef" then ⟨"BuiltinRef", true, false, false⟩ else r)) } : Full).ValidReduce
+    = false := by decide
+/-- a tree whose children are not in constructor order is outside the statement -/
+example : InUniverseCtor (.node "AddExpr" [("rhs", .ref 1), ("lhs", .ref 2)]) = false := by decide
 
 /-- non-vacuity, and the shape of D18: a class whose row is invalid does not round-trip -/
 def sn : String → List String
